@@ -44,7 +44,7 @@ COMPONENTS = {
 }
 PROBES = ["cut_in_magic", "cut_in_header_map", "cut_in_header_sync", "cut_in_block_count",
           "cut_in_block_size", "cut_in_payload", "cut_in_block_sync", "cut_on_boundary",
-          "zero_payload_block", "multi_block_file", "foreign_file", "history_file", "schemaless_prefix"]
+          "zero_payload_block", "multi_block_file", "foreign_file", "history_file", "c07_history_file", "schemaless_prefix"]
 
 
 def setup():
@@ -91,7 +91,20 @@ def _cut_offsets(ch, L, truth, tier):
 def build_file(ch, ctx):
     """Returns (bytes, source-tag, description)."""
     F = common.fa()
-    src = ch.weighted([5, 3, 2])
+    src = ch.weighted([5, 3, 2, 2])
+    if src == 3:
+        # a full C07-style history (failed writes, flushes, block copies, append re-opens with
+        # unrelated arguments): a file made of many writers' blocks
+        import runner
+        from props import c07
+        sub = runner.RunCtx("quick")
+        st = c07.Stream("bytesio")
+        data, model, node, desc, ops = c07._history(F, ch, sub, st)
+        ctx.probe("history_file")
+        ctx.probe("c07_history_file")
+        d = dict(desc)
+        d["history_ops"] = ops[:40]
+        return data, "c07history", d, list(model.records), node
     if src == 0:
         sc = common.container_scenario(ch, max_records=10)
         sc.sync_interval = common.draw_sync_interval(ch, common.encoded_sizes(sc))
@@ -216,7 +229,9 @@ def run_one(ch, ctx):
             if not _is_prefix(Y, R):
                 raise Violation("cut", "not-a-prefix", detail=dict(det, got=Y[-2:]), scenario=desc)
             if k < truth.header_len:
-                if stage != "open" or exc is None:
+                # a cut inside the header must be reported (when opening or, for a lazily
+                # parsed header, when iterating) and nothing may be yielded
+                if exc is None or Y:
                     raise Violation("cut", "header-cut-accepted", detail=det, scenario=desc)
                 continue
             if exc is None and k not in bounds:
